@@ -442,6 +442,11 @@ def resolve(e, env, depth=0):
     if k == "MethodCall":
         if e["method"] in TRANSPARENT_METHODS and not e["args"]:
             return resolve(e["recv"], env, depth + 1)
+        # `opt.map_or(d, |v| body)` is `match opt { Some(v) => body, None => d }`
+        if e["method"] == "map_or" and len(e["args"]) == 2 and e["args"][1]["k"] == "Closure" and len(e["args"][1]["params"]) == 1:
+            clo = e["args"][1]
+            cenv = bind_pattern(env, {"k": "PTupleStruct", "path": "Some", "elems": [clo["params"][0]]}, e["recv"], env, "bind", clo)
+            return mk_alt([resolve(clo["body"], cenv, depth + 1), resolve(e["args"][0], env, depth + 1)], ("match", resolve(e["recv"], env, depth + 1)))
         args = []
         for a in e["args"]:
             if a["k"] == "Closure":
